@@ -234,6 +234,9 @@ def run(ctx):
                 ln = int.from_bytes(data[off:off + 4], "big")
                 for v_ in (ln + 1, ln + 4, ln + 5, 0x7fffffff, 0x80000000, 0xfffffffc, 0xffffffff):
                     fam["probe messages with a blob length replaced"].append(data[:off] + (v_ & 0xffffffff).to_bytes(4, "big") + data[off + 4:])
+    if ctx.tier == "thorough":
+        fam["all 12-byte buffers `/\\0\\0\\0,xyz....`"] = [b"/\0\0\0," + bytes(t_) + bytes(v_) for t_ in itertools.product((0, ord("i"), ord("s"), ord("b")), repeat=3)
+                                                        for v_ in itertools.product((0, 1, 0xff), repeat=4)]
     fval = u.function("rtosc_valid_message_p")
     for name, bufs in fam.items():
         bufs = list(dict.fromkeys(bufs))
